@@ -64,8 +64,9 @@ def _entry_must_pass(cfg, ids):
     return True
 
 
-def logged_before(cfg, point, log_ids, remove_ids, ok_ids=()):
-    """On every path entry->point the most recent logger event is a log (backward search from point)."""
+def logged_before(cfg, point, log_ids, remove_ids, ok_ids=(), ok_edges=()):
+    """On every path entry->point the most recent logger event is a log (backward search from point).  ok_edges: CFG edges (from block, to block)
+    that are only taken when a self-explaining callee has just failed (it has logged): a path that arrives over such an edge is explained."""
     pos = cfg.block_of(point)
     if pos is None:
         return False
@@ -86,7 +87,7 @@ def logged_before(cfg, point, log_ids, remove_ids, ok_ids=()):
     if r == 'remove':
         return False
     seen = set()
-    st = list(cfg.pred[b0])
+    st = [p_ for p_ in cfg.pred[b0] if (p_, b0) not in ok_edges]
     if b0 == cfg.entry:
         return False
     while st:
@@ -103,7 +104,7 @@ def logged_before(cfg, point, log_ids, remove_ids, ok_ids=()):
             return False
         if not cfg.pred[b] and b != cfg.entry:
             continue  # unreachable block
-        st.extend(cfg.pred[b])
+        st.extend(p_ for p_ in cfg.pred[b] if (p_, b) not in ok_edges)
     return True
 
 
@@ -238,11 +239,41 @@ class Summaries:
                 pts.append((r, 'return %s (computed value that may be the failure value)' % render(e)[:70]))
         return pts
 
+    def failure_edges(self, f, cfg):
+        """CFG edges taken exactly when a summarised callee (bool failure value) has just reported failure."""
+        key = (f.key, id(cfg))
+        cache = self.__dict__.setdefault('_fe', {})
+        if key in cache:
+            return cache[key]
+        out = set()
+        for b, blk in cfg.blocks.items():
+            ss = blk.get('succ') or []
+            cid = blk.get('lc') or blk.get('tc')
+            if len(ss) != 2 or not cid or blk.get('tk') in ('SwitchStmt', 'CXXTryStmt', 'CXXForRangeStmt'):
+                continue
+            c = f.nodes.get(cid)
+            flip = False
+            while c is not None and ((c.get('k') == 'Un' and c.get('op') == '!') or (c.get('k') in ('Paren', 'Cast') and len(c.get('c', [])) == 1)):
+                if c.get('k') == 'Un':
+                    flip = not flip
+                c = c['c'][0]
+            if c is None or c.get('k') != 'Call' or c.get('opc'):
+                continue
+            for k2 in self.F.callee_keys(c):
+                V = self.cand.get(k2)
+                if V in (True, False):
+                    cond_truth_on_failure = (V != flip)      # truth of the whole (possibly negated) condition when the callee fails
+                    tgt = ss[0] if cond_truth_on_failure else ss[1]
+                    if tgt is not None:
+                        out.add((b, tgt))
+        cache[key] = out
+        return out
+
     def explained(self, f, point):
         cfg = f.cfg_for(point)
         log_ids = _log_nodes(self.F, f, self.logs)
         rem_ids = _remove_nodes(f)
-        if logged_before(cfg, point, log_ids, rem_ids, self.ok_ids.get(point['i'], ())):
+        if logged_before(cfg, point, log_ids, rem_ids, self.ok_ids.get(point['i'], ()), self.failure_edges(f, cfg)):
             return 'an issue is added on every path to this point'
         cs = ff(f).conds_at(point)
         for c, t in (cs or []):
@@ -290,6 +321,33 @@ def report(F, rep, rule, cand_spec, floor):
             raise AnalysisBroken('anchor vanished: ' + suffix)
         for f in fs:
             cands[f.key] = V
+    # helpers split off from a candidate carry the same contract: `return helper(...)` hands the helper's verdict on, and a failure return under
+    # `!helper(...)` relies on the helper having explained itself - such helpers (same file, bool result) become candidates too
+    changed = True
+    while changed:
+        changed = False
+        for key, V in list(cands.items()):
+            if V not in (True, False):
+                continue
+            f = F.funcs[key]
+            for r in returns(f):
+                e = r['c'][0] if r.get('c') else None
+                if e is None:
+                    continue
+                new = []
+                if e.get('k') == 'Call' and not e.get('opc'):
+                    new = [(k2, V) for k2 in F.callee_keys(e)]
+                elif e.get('k') == 'Bool' and bool(e.get('v')) == V:
+                    for c, t in (ff(f).conds_at(r) or []):
+                        c2, t2 = norm_cond(c, t)
+                        if c2 is not None and c2.get('k') == 'Call' and not c2.get('opc'):
+                            new += [(k2, t2) for k2 in F.callee_keys(c2)]
+                for k2, v2 in new:
+                    h = F.funcs.get(k2)
+                    if h is not None and k2 not in cands and h.file == f.file and (h.j.get('ret') or '') == 'bool' and v2 in (True, False) \
+                            and any(F.funcs[k3].name == 'addIssue' for k3 in F.reach([k2]) if k3 in F.funcs):     # a helper that can log at all (not a state query)
+                        cands[k2] = v2
+                        changed = True
     S = Summaries(F, cands)
     pts = S.solve()
     total = 0
